@@ -113,6 +113,15 @@ def run(chk):
                 lambda x=x, nb=nb: bool(ds.isdist1(x, set(), nb)), bool, "isdist")
             add({"op": "isdist1", "x": x, "ref": ref, "A": alpha, "ham": ham},
                 lambda x=x, nb=nb, ref=ref: bool(ds.isdist1(x, set(ref), nb)), bool, "isdist")
+    # queries holding symbols that are not letters (stop codon '*', gap '-', '.', a digit, lower case): every other position is still
+    # searched over the whole 20-letter alphabet
+    for x_, refs_ in (("CAS*L", ["CASDF"]), ("CA-SL", ["CAGSF", "CADSL"]), ("C.SSL", ["CHSSF"]), ("*A", ["DC"]), ("CAS1L", ["CASBL", "CASAF"]),
+                      ("cASL", ["CASF", "DASF"]), ("C*S*L", ["CDSDF", "CDSGL"])):
+        for md in (2, 3, 4):
+            add({"op": "nndist_hamming", "x": x_, "ref": refs_, "A": AA, "maxdist": md},
+                lambda x=x_, ref=refs_, md=md: int(ds.nndist_hamming(x, set(ref), maxdist=md)), int, "nndist")
+        add({"op": "isdist_ham", "x": x_, "ref": refs_, "A": AA, "n": 2}, lambda x=x_, ref=refs_: bool(ds._isdist2_hamming(x, set(ref))), bool, "isdist")
+        add({"op": "isdist_ham", "x": x_, "ref": refs_, "A": AA, "n": 3}, lambda x=x_, ref=refs_: bool(ds._isdist3_hamming(x, set(ref))), bool, "isdist")
     # --- nndist_hamming and the nested enumerations (fixed 20-letter alphabet in the code)
     for _ in range(40 if not thorough else 300):
         Lx = rng.randint(1, 5)
